@@ -14,7 +14,8 @@ def events(dose, start, duration, period, num, final_time):
     else:
         ev = []
         k = 0
-        while (num is None or num == 0 or k < num):
+        # (num = None: indefinitely; num = 0 doses: no dose)
+        while (num is None or k < num):
             t = start + k * period
             if t > final_time:
                 break
